@@ -1181,6 +1181,7 @@ int main(int argc, char** argv)
    }
    bool thorough = args.tier == "thorough";
    Report rep(args, "exploration", thorough ? 5400 : 900);
+   rep.all.maxSamples = 14;      // room for samples of the literal, round-trip and dual phases
    RunOpts o = rep.opts();
    o.perturb = {85};
    o.watchdog_s = 300;      // a case is 1-64 file round trips (milliseconds); the margin is for a heavily loaded machine / file system
